@@ -167,7 +167,8 @@ def IsSourceSinkPath (g : Graph) (p : List Nat) : Prop :=
 def Before (l : List Nat) (u v : Nat) : Prop := l.idxOf u < l.idxOf v
 
 /-- Reachable-state invariant of `Graph` (holds for every graph built with
-`add_node` / `add_child` / `Graph(nodes=…)`; `remove` breaks `closed`). -/
+`add_node` / `add_child` / `Graph(nodes=…)` / `remove`, see `GraphWF.lean` and
+`GraphRemove.lean`). -/
 structure WF (g : Graph) : Prop where
   /-- `_graph` is a dict: keys are distinct. -/
   nodupKeys : (g.children.map Prod.fst).Nodup
